@@ -8,7 +8,7 @@ EXPLANATION = ('A reader acquires a guard on the node published in a shared conc
 ASSUMPTIONS = ['2-3 threads, K rounds (<= K*T-1 context switches), one shared cell, <= 2 retired nodes, sequentially consistent memory',
                'std::sort/std::vector/binary_search/lower_bound used by the scans are replaced by contract-equivalent linear stubs (harness/common/std_stubs.h)',
                'operator new never returns a previously freed address (no ABA through address reuse)']
-TIMEOUT = {'quick': 400, 'thorough': 3000}
+TIMEOUT = {'quick': 900, 'thorough': 3000}
 SRC = 'C01/reclaim_mt.cpp'
 NAMES = {1: 'hp-static', 2: 'hp-dynamic', 3: 'he-static', 4: 'he-dynamic', 5: 'ebr', 6: 'nebr', 7: 'debra', 8: 'qsbr', 9: 'stamp-it', 10: 'lfrc',
          11: 'lfrc-tl', 12: 'geb-lazy'}
